@@ -6,8 +6,8 @@ package stream
 // harness (package dlqparity) can execute both engines' real implementations.
 
 func VerifNewWindow(size, threshold int) *dlqWindow { return newDLQWindow(size, threshold) }
-func VerifWindowAck(w *dlqWindow)                    { w.Ack() }
-func VerifWindowNack(w *dlqWindow) bool              { return w.Nack() }
+func VerifWindowAck(w *dlqWindow)                   { w.Ack() }
+func VerifWindowNack(w *dlqWindow) bool             { return w.Nack() }
 func VerifWindowCounts(w *dlqWindow) (nacks, acks int) {
 	return w.nackCount, w.ackCount
 }
